@@ -341,6 +341,8 @@ def cli_run(prog, args, timeout):
     # every process has its own string-hash seed in real use (PYTHONHASHSEED unset): repeated runs must not depend on it
     _HASHSEED[0] = _HASHSEED[0] % 7 + 1
     e["PYTHONHASHSEED"] = str(_HASHSEED[0])
+    # stdout is a pipe here and must be buffered the way it is in real use (a pipe or a file), not line by line
+    e.pop("PYTHONUNBUFFERED", None)
     t0 = time.time()
     p = subprocess.Popen([env.PY, "-c", CLI_BOOT, prog] + args, stdout=subprocess.PIPE, stderr=subprocess.PIPE, env=e,
                          cwd=env.workdir("cwd"), start_new_session=True)
@@ -443,7 +445,25 @@ class CliInputs:
             self.pysam.faidx(rp)
         return vp + ".gz", rp
 
-    def hap_vcf(self, header, records, bad=None):
+    @staticmethod
+    def widen(rec, n_alleles=11):
+        """the record with further ALT haplotypes (single-base substitutions of REF at positions no listed ALT varies),
+        so that whole-genotype-array fields make the output line longer than any stream buffer"""
+        f = rec.split("\t")
+        ref = f[3]
+        alts = [] if f[4] == "." else f[4].split(",")
+        var = {i for a in alts for i in range(len(ref)) if a[i] != ref[i]}
+        for i in range(len(ref)):
+            if len(alts) + 1 >= n_alleles:
+                break
+            if i in var or ref[i] not in "ACGT":
+                continue
+            alts.append(ref[:i] + "ACGT"[("ACGT".index(ref[i]) + 1) % 4] + ref[i + 1:])
+        f[4] = ",".join(alts) if alts else "."
+        f[7] = ";".join(x for x in f[7].split(";") if x.split("=")[0] in ("END", "REFMASKED")) or "."
+        return "\t".join(f)
+
+    def hap_vcf(self, header, records, bad=None, wide=False):
         """haplotype VCF with the given records (in that order); bad = index of the record whose REF haplotype gets a
         base, at its first SNV position, that the alignments contradict"""
         recs = list(records)
@@ -460,6 +480,8 @@ class CliInputs:
                 return None
             f[3] = f[3][:off] + new + f[3][off + 1:]
             recs[bad] = "\t".join(f)
+        if wide:
+            recs = [self.widen(r) for r in recs]
         p = self.path("haps.vcf")
         with open(p, "w") as fh:
             fh.write("\n".join(header + recs) + "\n")
@@ -476,7 +498,8 @@ def prog_args(prog, inp, src):
     if prog == "call":
         return ["--bam"] + inp.bams + ["--ploidy", "4", "--haplotypes", src] + MCMC + rg
     if prog == "call-exact":
-        return ["--bam"] + inp.bams + ["--ploidy", "4", "--haplotypes", src] + rg
+        # whole genotype arrays: record lines far longer than any stream buffer
+        return ["--bam"] + inp.bams + ["--ploidy", "4", "--haplotypes", src, "--report", "GP", "GL", "AFP"] + rg
     if prog == "call-pedigree":
         return ["--bam"] + inp.bams + ["--sample-parents", inp.ped, "--ploidy", "4", "--haplotypes", src, "--gamete-error", "0.1"] + MCMC
     raise ValueError(prog)
@@ -589,7 +612,7 @@ def cli_collect(wd, quick, seed):
             header, recs = hap[ds]
             byname = {r.split("\t")[2]: r for r in recs}
             sel = [byname[loci[i][3]] for i in order]
-            src = inp.hap_vcf(header, sel, bad=(fail - 1) if fail else None)
+            src = inp.hap_vcf(header, sel, bad=(fail - 1) if fail else None, wide=(prog == "call-exact"))
             if src is None:
                 return False
         plan.append({"prog": prog, "ds": ds, "grp": grp(prog, ds), "cores": cores, "expect": expect, "fail": fail, "what": what,
@@ -660,6 +683,8 @@ def cli_collect(wd, quick, seed):
 def cli_validate(ck, data, lap):
     allruns, gids, progs = data["allruns"], data["gids"], data["progs"]
     ck.note("cli_wall_s", data["wall"])
+    ck.note("cli_longest_record_bytes", {p: max((len(ln) for r in data["allruns"] if r["prog"] == p for ln in r.get("stdout", "").split("\n")
+                                                 if not ln.startswith("#")), default=0) for p in data["progs"]})
     # ---- summaries -> TLC ------------------------------------------------------------------------
     # 9 fixed columns + sample columns: read-group IDs as samples give 4 (one BAM carries two read groups);
     # call-pedigree keeps the 3 SM samples its pedigree file names
